@@ -612,10 +612,10 @@ def ExchPost (cfg : CardCfg) (cmd : Bytes) (Q : Bytes → Prop) (w : World Card)
              r.2.1.pni < 2 ∧ Sync r.2.1.pni r.1.card
   | .error e => ErrKind e ∧ (r.1.card.log = w.card.log ∨ r.1.card.log = w.card.log ++ [cmd])
 
-theorem exchange_post (cfg : CardCfg) (F : Nat) (pcd : Pcd) (cmd : Bytes) (w : World Card) (m : Nat)
+theorem exchangeCmd_post (cfg : CardCfg) (F : Nat) (pcd : Pcd) (cmd : Bytes) (w : World Card) (m : Nat)
     (hmiu : pcd.miu = (m : Int)) (hm : 1 ≤ m) (hcmd : cmd ≠ []) (hp : pcd.pni < 2)
     (hs : Sync pcd.pni w.card) (Q : Bytes → Prop) (hQ : ∀ b : Bytes, b.length ≤ m + 1 → Q b) (hq : ∀ b ∈ w.trace, Q b) :
-    ExchPost cfg cmd Q w (exchange (isoPeer cfg) F pcd cmd w) := by
+    ExchPost cfg cmd Q w (exchangeCmd (isoPeer cfg) F pcd cmd w) := by
   have h0 : ¬ pcd.miu = 0 := by omega
   have h1 : ¬ (pcd.miu < 0 ∨ cmd = []) := by
     intro h; rcases h with h | h
@@ -624,7 +624,7 @@ theorem exchange_post (cfg : CardCfg) (F : Nat) (pcd : Pcd) (cmd : Bytes) (w : W
   have ht : pcd.miu.toNat = m := by omega
   obtain ⟨hfl, hne, hlen⟩ := chunks_spec m hm cmd hcmd
   have hsend := sendChunks_post cfg m F pcd.nNak hm w.card.log Q hQ (chunks m cmd) pcd.pni [] w hne hp hs.1 hs.2 rfl hlen hq
-  unfold exchange
+  unfold exchangeCmd
   simp only [h0, h1, if_false, ht]
   rw [hfl, List.nil_append] at hsend
   generalize sendChunks _ _ _ _ _ _ = r1 at hsend ⊢
@@ -758,15 +758,15 @@ theorem recvChain_safe {σ} (P : Peer σ) (F nAck : Nat) :
 
 /-- `exchange` raises nothing but `Type4TagCommandError(TIMEOUT|RECEIVE|PROTOCOL)`, whatever the card
 does (`outOfFuel` is the model's marker for a card that never stops asking for more) -/
-theorem exchange_error_kind_any {σ} (P : Peer σ) (F : Nat) (pcd : Pcd) (cmd : Bytes) (w : World σ)
-    (hm : 0 < pcd.miu) (hcmd : cmd ≠ []) (e : Exc) (h : (exchange P F pcd cmd w).2.2 = .error e) : ErrKind e := by
+theorem exchangeCmd_error_kind_any {σ} (P : Peer σ) (F : Nat) (pcd : Pcd) (cmd : Bytes) (w : World σ)
+    (hm : 0 < pcd.miu) (hcmd : cmd ≠ []) (e : Exc) (h : (exchangeCmd P F pcd cmd w).2.2 = .error e) : ErrKind e := by
   have h0 : ¬ pcd.miu = 0 := by omega
   have h1 : ¬ (pcd.miu < 0 ∨ cmd = []) := by
     intro h; rcases h with h | h
     · omega
     · exact hcmd h
   have hne : chunks pcd.miu.toNat cmd ≠ [] := (chunks_spec pcd.miu.toNat (by omega) cmd hcmd).2.1
-  unfold exchange at h
+  unfold exchangeCmd at h
   simp only [h0, h1, if_false] at h
   have hs := sendChunks_safe P F pcd.nNak (chunks pcd.miu.toNat cmd) pcd.pni w hne
   generalize sendChunks _ _ _ _ _ _ = r at hs h
@@ -776,5 +776,16 @@ theorem exchange_error_kind_any {σ} (P : Peer σ) (F : Nat) (pcd : Pcd) (cmd : 
   | ok d =>
     simp only [SafeRes] at h hs
     exact recvChain_safe P F pcd.nAck F p1 d (d.drop 1) w1 hs e h
+
+/-- `_exchange_command` never touches the error flag -/
+theorem exchangeCmd_failed {σ} (P : Peer σ) (F : Nat) (pcd : Pcd) (cmd : Bytes) (w : World σ) :
+    (exchangeCmd P F pcd cmd w).2.1.failed = pcd.failed := by
+  unfold exchangeCmd
+  split
+  · rfl
+  · split
+    · rfl
+    · simp only
+      split <;> rfl
 
 end NfcVerif.IsoDep
